@@ -2,6 +2,7 @@
 C13 — an existing object version never changes under the caller.
 -/
 import Pithos.Lemmas.S3FrozenStep
+import Pithos.Lemmas.S3EditStep
 import Pithos.Props.C01
 
 namespace Pithos.C13
@@ -71,6 +72,30 @@ theorem version_frozen_run (q : Quirks) (hq : q.appendLatestInPlace = false) (op
     have := ih (fun o ho => hops o (List.mem_cons_of_mem _ ho)) (step q s op).1 bk1 (step_inv q s op hinv) hfb1
       ⟨r1, hr1, he0.trans he1⟩
     simpa [run] using this
+
+/-- **version_get_stable.** What the caller sees: take any reachable state and any object version
+`r` with a version id in it. After ANY further sequence of operations that does not explicitly
+delete that version (`HarmlessFor`), GET with that version id returns the same bytes, the same
+size and the same ETag. -/
+theorem version_get_stable (q : Quirks) (hq : q.appendLatestInPlace = false) (pre ops : List Op) (b : String)
+    (bk : Bucket) (r : Row) (hfb : findBucket (run q {} pre).1 b = some bk) (hr : r ∈ bk.rows)
+    (hv : r.vid ≠ none) (hdm : r.dm = false) (hops : ∀ op ∈ ops, HarmlessFor op b r.key r.vid) :
+    ∃ v, (step q (run q (run q {} pre).1 ops).1 (.get b r.key (some r.vid))).2 = .obj v ∧
+      v.body = r.content ∧ v.size = r.size ∧ v.etag = r.etag ∧ v.vid = r.vid := by
+  obtain ⟨hinv0, hvinv0⟩ := run_vinv q hq pre {} (by intro bk hbk; cases hbk) (by intro bk hbk; cases hbk)
+  obtain ⟨bk', hfb', r', hr', he⟩ := version_frozen_run q hq ops b r hv hops _ bk hinv0 hfb ⟨r, hr, frozenEq.refl q r⟩
+  obtain ⟨_, hvinv1⟩ := run_vinv q hq ops _ hinv0 hvinv0
+  have hrow := rowByVid_of_mem (hvinv1 bk' (findBucket_mem hfb')) hr'
+  rw [← he.2.1, ← he.2.2.1] at hrow
+  have hfb2 : findBucket { (run q (run q {} pre).1 ops).1 with clock := (run q (run q {} pre).1 ops).1.clock + 1 } b = some bk' := hfb'
+  have hdm' : r'.dm = false := by rw [← he.2.2.2.1]; exact hdm
+  refine ⟨viewOf r', ?_, ?_, ?_, ?_, ?_⟩
+  · simp [step, stepT, hfb2, resolve, hrow, hdm']
+  · simp [viewOf, Row.content, he.2.2.2.2.1]
+  · simp [viewOf, Row.size, Row.content, he.2.2.2.2.1]
+  · simp [viewOf, he.2.2.2.2.2.1]
+  · simp [viewOf, he.2.2.1]
+
 
 /-- **Negation witness (Last-Modified), code as it is** (`Quirks.code`: `touchOnAnySave = true`):
 version v0 is written, then v1 is written to the same key; v0's `updated` (Last-Modified) moves,
